@@ -5,6 +5,7 @@
                                  c(y) = f(x) xor mask[n]  with  x[perm[i]] = y[i] xor mask[i]   (Spec/Transform.v).
    Statements only; proofs are in Proofs/CanonWalk.v. *)
 From Coq Require Import List NArith Bool.
+From V Require Proofs.ExprsTie2.   (* expressions of cube.rs / ecube.rs / bdd.rs / canonization.rs, regenerated from the Rust source, equal the model's *)
 From V Require Proofs.GrayAll Proofs.CanonAllN.
 From V Require Proofs.SjtAll Proofs.CanonNpnAll.
 From V Require Import Base.Res Model.Kernels Model.Canon Spec.Bfun Spec.Transform Proofs.CanonWalk.
